@@ -307,6 +307,7 @@ func runProtocol(kc *kernelCtx, blocks []*Block, only string, want map[string]bo
 		}
 		if on("C03") || on("C14") {
 			pc.p2Release(s)
+			pc.p2cUnconditionalRelease(s)
 		}
 		if on("C14") {
 			pc.p9BlockingWaits(s)
